@@ -160,6 +160,12 @@ pub(crate) fn queued_package(name: NameId) {
     emit(|| format!("queued package {}", name.to_usize()));
 }
 
+/// `analyze_unsolvable` follows the literals of the reason clause of an
+/// involved assignment.
+pub(crate) fn blame_visit(clause: ClauseId) {
+    emit(|| format!("blame {}", clause.to_usize()));
+}
+
 pub(crate) fn soft_fail(root: SolvableOrRootId, clause: ClauseId) {
     emit(|| match root.solvable() {
         None => format!("softfail root {}", clause.to_usize()),
